@@ -93,7 +93,7 @@ X_INSERT = {"fn": r"AnyVecRaw::<.*>::insert_unchecked", "desc": r"placeholder me
 X_UNWRAP = {"fn": r"option::unwrap_failed|Option::<.*>::unwrap", "desc": r"."}
 X_TYPE = {"fn": r"stubs::assert_failed_stub", "desc": r"VP-EXPECTED: type mismatch"}
 X_CAP = {"fn": r"Mem>?::expand|mem::Mem::expand", "desc": r"placeholder message|Can't change capacity"}
-X_RANGE = {"fn": r"any_vec::into_range", "desc": r"assertion failed|overflow|placeholder"}
+X_RANGE = {"fn": r"any_vec::into_range|option::expect_failed|Option::<usize>::expect", "desc": r"assertion failed|overflow|placeholder|maximum usize"}
 X_STACKN = {"fn": r"StackN::<.*>::build|stack_n", "desc": r"placeholder message|Insufficient storage"}
 
 
@@ -123,6 +123,10 @@ def _load():
     names = [e["name"] for e in _ENTRIES]
     dup = set(n for n in names if names.count(n) > 1)
     assert not dup, "duplicate harness names: %s" % sorted(dup)[:5]
+
+
+def all_entries_named(prefixes):
+    return [e for e in _ENTRIES if any(e["name"].startswith(p) for p in prefixes)]
 
 
 def rot_pick(name, seed, mod):
